@@ -22,6 +22,7 @@ RULE = (
     "on the lattice, each a complete run of main(); non-trivial = at least 2 records scheduled and, when split, at least 2 files; "
     "lattice points are distinct by construction"
 )
+RULE += " Beyond the lattice (chosen scenarios, not enumerated): file-name prototypes whose counter has or gets five digits; runs in which everything is dead and nothing is left to release."
 ASSUMPTIONS = ["output period a whole multiple of dt (the statement's validity condition)", "analytic grid/forcing plug-ins"]
 
 S0 = world.tosec("2020-03-01T00:00:00")
